@@ -49,7 +49,7 @@ func (fc *FnCtx) havocSynthetic(id string) {
 		g.assumeRaw(fmt.Sprintf("(<= %s %s)", old, g.get(fc.cur, "$alloc")))
 	}
 	for _, k := range g.keyOrder {
-		if mod(k) && g.keys[k].ref != "" {
+		if mod(k) && g.keys[k].hasRef() {
 			g.heapBound(k, g.get(fc.cur, k), g.get(fc.cur, "$alloc"))
 		}
 	}
@@ -115,7 +115,9 @@ func (fc *FnCtx) retryDo(ins ssa.Instruction, cc *ssa.CallCommon, setResult func
 	c := g.findContract(ci.fn)
 	var rs []Val
 	if c != nil && !c.Inline {
+		fc.calleeFn = ci.fn
 		rs = fc.applyContract(ins, c, ci.fn.String(), ci.fn.Signature, ci.bindingsAsArgs(), true, nil)
+		fc.calleeFn = nil
 	} else {
 		rs = fc.inline(ins, ci.fn, c, ci, nil)
 	}
@@ -504,7 +506,7 @@ func (fc *FnCtx) loMap(ins ssa.Instruction, cc *ssa.CallCommon, args []Val, setR
 		g.havocKey(fc.cur, "$alloc", "lo.Map")
 		fc.assume(fmt.Sprintf("(<= %s %s)", oa, g.get(fc.cur, "$alloc")), "alloc grows")
 		for _, t := range targets {
-			if g.keys[t.key].ref != "" {
+			if g.keys[t.key].hasRef() {
 				g.heapBound(t.key, g.get(fc.cur, t.key), g.get(fc.cur, "$alloc"))
 			}
 		}
